@@ -225,3 +225,17 @@ Definition T (h : string) (d m : Z) : tr := {| t_hash := h; t_dead := d; t_mtime
 Definition It (h : string) (m : Z) (mount : string) : item := {| i_hash := h; i_mtime := m; i_mount := mount |}.
 Definition St (lo now hi : Z) (o : op) (code : N) (after : list listing) : sobs :=
   {| s_lo := lo; s_now := now; s_hi := hi; s_op := o; s_code := code; s_after := after |}.
+
+(* compact input format of the generated files (parsing dominates the evaluation time): the clock
+   value and the end of the window are given as offsets from the start of the window, and a listing
+   that is identical to the previous one is written None *)
+Record rawstep := { w_lo : Z; w_dnow : Z; w_dhi : Z; w_op : op; w_code : N; w_after : option (list listing) }.
+Definition Sr (lo dnow dhi : Z) (o : op) (code : N) (after : option (list listing)) : rawstep :=
+  {| w_lo := lo; w_dnow := dnow; w_dhi := dhi; w_op := o; w_code := code; w_after := after |}.
+Fixpoint expand (prev : list listing) (rs : list rawstep) : list sobs :=
+  match rs with
+  | [] => []
+  | r :: rest =>
+    let after := match w_after r with Some a => a | None => prev end in
+    St (w_lo r) (w_lo r + w_dnow r) (w_lo r + w_dhi r) (w_op r) (w_code r) after :: expand after rest
+  end.
